@@ -1,5 +1,6 @@
 import Originium.Model.LSM
 import Originium.Model.Kway
+import Originium.Model.LevelTie
 /-! # C09 — compaction never changes the answer of any permitted read
 
 Compacting any set of tables, with any version-discard watermark, yields tables that answer every
@@ -100,10 +101,40 @@ theorem C09_kway_heap_merge (lists : List (List E)) (hs : ∀ l ∈ lists, Sorte
   ⟨Kway.run_exists _ _ rfl (Kway.good_initFrom 0 lists hs).1,
    fun _ hr merged hsm hmem => Kway.run_eq_spec lists hs hr merged hsm hmem⟩
 
+
+/-! ### The Go code itself: `levelManager.discardStaleEntries`, translated from `/repo/level.go` on every run -/
+
+/-- the translated `discardStaleEntries`, applied to the merge of any inputs, is an accepted compaction output: a subset
+    of the inputs in which every dropped entry is shadowed by a kept newer version of the same user key at or below
+    the watermark — whatever `slices.SortFunc` does beyond keeping the elements -/
+theorem C09_code_discard_allowed (sort : List E → List E) (hsort : ∀ l x, x ∈ sort l ↔ x ∈ l) (low : Nat)
+    (ins : List (List E)) (hc : Consistent ins.flatten) :
+    Allowed low ins.flatten (GenLevel.discardStale sort low (mergeVersions ins)) := by
+  have hcm : Consistent (mergeVersions ins) := consistent_sub (mergeVersions_sub ins) hc
+  have hd := LevelTie.discardStale_allowed sort hsort low (mergeVersions ins) hcm
+  refine ⟨fun e he => mergeVersions_sub ins e (hd.sub e he), ?_⟩
+  intro e he hne
+  exact hd.shadowed e (mergeVersions_complete ins hc e he) hne
+
+/-- … hence every permitted read (`r ≥ low`) of the brute-force specification is answered by the translated output as it
+    was by the inputs, next to any other tables -/
+theorem C09_code_preserves (sort : List E → List E) (hsort : ∀ l x, x ∈ sort l ↔ x ∈ l) (low : Nat)
+    (ins : List (List E)) (hc : Consistent ins.flatten) (rest : List E) (k : Bytes) (r : Nat) (hr : low ≤ r) (res : Option E)
+    (hn : IsNewest (rest ++ ins.flatten) k r res) :
+    IsNewest (rest ++ GenLevel.discardStale sort low (mergeVersions ins)) k r res :=
+  compaction_preserves (C09_code_discard_allowed sort hsort low ins hc) k r hr res hn
+
+/-- non-vacuity: the translated function on a concrete merge (identity as the sort): with watermark 2 the version 1 of
+    `a` goes, version 2 (the newest at or below the watermark) and version 3 stay -/
+example : (GenLevel.discardStale id 2
+    [⟨⟨[97], 3⟩, [1], false, 3⟩, ⟨⟨[97], 2⟩, [], true, 2⟩, ⟨⟨[97], 1⟩, [5], false, 1⟩]).map (fun e => e.key.ts) = [3, 2] := by decide
+
 #print axioms C09_preserves
 #print axioms C09_only_shadowed
 #print axioms C09_no_invention
 #print axioms C09_sorted_nonempty
 #print axioms C09_low_zero
 #print axioms C09_kway_heap_merge
+#print axioms C09_code_discard_allowed
+#print axioms C09_code_preserves
 end Props
